@@ -195,7 +195,7 @@ func c15Seq(c *cx) {
 				if k == "ibb.stanzaWriter.seq" {
 					g := f.Graph()
 					pt, _ := g.Where(w.Stmt)
-					okd, _ := g.DominatedAny(pt, []string{"eq(local:err<error>,nil)"})
+					okd, _ := g.DominatedAny(pt, []string{"eq(local:*<error>,nil)"})
 					c.r.Check(id, f, "sender's counter advanced only after a successful send", "G: seq++ is dominated by err == nil of the send", w.Stmt.Pos(), okd, "seq++ reachable after a failed send")
 				}
 				if k == "ibb.Conn.seq" {
